@@ -294,6 +294,7 @@ class AddrmapRun(object):
         self.owners_ever = {}       # address -> set of names
         self.addr_lost = {}         # address -> 'expiry' | 'error' | 'replacement' (latest reason)
         self.replaced_involved = set()
+        self.addr_owner = {}
         self.all_E = set()          # every expiry instant ever issued (virtual seconds)
         self.pending = []           # stack mode: ops sent, not yet completely delivered
         self.listeners = []
@@ -670,6 +671,7 @@ class AddrmapRun(object):
         if o is None:
             o = self.owners_ever[addr] = set()
         o.add(st.name)
+        self.addr_owner[addr] = st.name     # the name of the latest line that carried this address
         if len(o) > 1:
             self.sim.probe('two-names-same-address')
 
@@ -886,6 +888,22 @@ class AddrmapRun(object):
                 sim.probe('lookup-by-replaced-address')
             if live:
                 if len(owners) != 1:
+                    # several names used this address: the mapping of the latest line that carried it is the one
+                    # registered under it; while that mapping is live and still on this address, what the OTHER
+                    # names do (move away, expire) must not take it away
+                    ost = self.by_name.get(self.addr_owner.get(addr))
+                    if ost is None or not ost.present or ost.addr != addr:
+                        continue
+                    if any('after-expired-line' in self.by_name[n].flags for n in owners):
+                        continue
+                    sim.probe('lookup-by-shared-address-latest-owner')
+                    found, res = self.find(addr)
+                    look.append('S' if found else 's')
+                    if not found or getattr(res, 'name', None) != ost.name:
+                        sim.fail('C20.shared-address-lookup-lost',
+                                 'find(%r) %s, but %r was the latest name mapped to it, is still live on it (%s) and only other names '
+                                 'changed since' % (addr, 'fails' if not found else 'gives the mapping of %r' % getattr(res, 'name', None),
+                                                    ost.name, self.describe(ost)))
                     continue
                 sim.probe('lookup-by-address-live')
                 found, res = self.find(addr)
